@@ -1211,6 +1211,11 @@ class BareServer():
                     continue
 
                 if steward.requestant.ended:
+                    if steward.requestant.errored:  # parse may swallow error but set .errored and .error
+                        sys.stderr.write(steward.requestant.error)
+                        self.closeConnection(ca)
+                        continue
+
                     steward.requestant.dictify()
                     logger.info("Parsed Request: %s %s %s",
                                 steward.requestant.method,
